@@ -288,6 +288,28 @@ func renderFamilies(c *ev.Ctx) {
 			}
 		}
 	}
+	// many lines: line numbers around the powers of ten and of two, lines of different lengths before
+	for _, t := range terms {
+		for _, k := range []int{1, 2, 8, 9, 10, 11, 15, 16, 17, 63, 64, 65, 98, 99, 100, 101, 127, 128, 129, 255, 256, 257, 999, 1000, 1001, 4095, 4096, 4097} {
+			for _, before := range []string{"", "a", "  ab", strings.Repeat("z", 210)} {
+				pre := strings.Repeat(before+t, k)
+				for _, line := range []string{"abc", "  abc", strings.Repeat("a", 205)} {
+					for _, post := range []string{"", t, t + "y" + t} {
+						content := pre + line + post
+						for _, off := range []int{0, 2, len(line) - 1} {
+							pos := len(pre) + off
+							n++
+							desc, class := checkRender(content, pos)
+							c.Eval(true)
+							if desc != "" {
+								c.Violate(fmt.Sprintf("render-lines;%s;term=%q;lines_before=%d;before=%.8q;line=%.8q;post=%q;off=%d", class, t, k, before, line, post, off), desc, caseT{"render", content, pos})
+							}
+						}
+					}
+				}
+			}
+		}
+	}
 	c.Bound("render_family_cases", n)
 }
 
